@@ -94,7 +94,7 @@ func checks() map[string]*Check {
 		"puppet layer: one real node (election timeout 3 ms), peers played by the harness; requests strictly sequential, so post-handler samples are exact before/after values",
 		"domain: seed-determined consistent worlds (leader logs over terms 1-3, <= 7 entries, announced commit points respecting leader completeness); requests drawn from the senders' logs (any prev, any prefix of the suffix, leaderCommit <= what that leader announced), duplicates, stale terms, optional compacted prefix via a real InstallSnapshot, optional crash+restart between any two requests",
 	}
-	m["C06"].Runs = append(m["C06"].Runs, RunSpec{Scen: "puppet.ae", Params: "cases=60", Quick: 24, Thorough: 600})
+	m["C06"].Runs = append(m["C06"].Runs, RunSpec{Scen: "puppet.ae", Params: "cases=60", Quick: 16, Thorough: 400}, RunSpec{Scen: "puppet.ae", Params: "cases=60,snapthr=2", Quick: 16, Thorough: 400})
 	m["C06"].NT = func(r *Result) bool {
 		if r.Scen == "puppet.ae" {
 			return cnt(r, "c06.commit_bound_checks") > 0
@@ -145,12 +145,13 @@ func checks() map[string]*Check {
 	app := func(id string, rs ...RunSpec) { m[id].Runs = append(m[id].Runs, rs...) }
 	app("C01", RunSpec{Scen: "w2.takeover", Quick: 24, Thorough: 600}, RunSpec{Scen: "w2.figure8", Quick: 16, Thorough: 400}, RunSpec{Scen: "w2.staleinstall", Params: "snapshots=1,snapthr=6,pad=100", Quick: 24, Thorough: 600})
 	app("C02", RunSpec{Scen: "w2.votes", Quick: 32, Thorough: 800})
-	app("C03", RunSpec{Scen: "w2.deposed", Quick: 24, Thorough: 600}, RunSpec{Scen: "w2.bounce", Quick: 16, Thorough: 400}, RunSpec{Scen: "w2.takeover", Quick: 16, Thorough: 400})
+	app("C03", RunSpec{Scen: "w1", Params: "crash=0,bounce=1,applyin=1500,voters=3,clients=6", Quick: 24, Thorough: 600}, RunSpec{Scen: "w1", Params: "crash=0,bounce=1,applyin=1500,voters=1", Quick: 8, Thorough: 200}, RunSpec{Scen: "w2.deposed", Quick: 24, Thorough: 600}, RunSpec{Scen: "w2.bounce", Quick: 16, Thorough: 400}, RunSpec{Scen: "w2.takeover", Quick: 16, Thorough: 400})
 	app("C04", RunSpec{Scen: "w2.exacthalf", Quick: 16, Thorough: 400}, RunSpec{Scen: "w2.acklose", Quick: 24, Thorough: 600})
 	app("C05", RunSpec{Scen: "w2.deposedread", Params: "opcap=2000", Quick: 24, Thorough: 600}, RunSpec{Scen: "w2.staleround", Params: "opcap=2000", Quick: 24, Thorough: 600},
 		RunSpec{Scen: "w2.freshread", Params: "opcap=4000,applyin=300", Quick: 16, Thorough: 400}, RunSpec{Scen: "w2.freshread", Params: "opcap=4000,applyin=300,voters=1", Quick: 8, Thorough: 200},
 		RunSpec{Scen: "w1", Params: "crash=1,reads=1,applyin=400,voters=3", Quick: 24, Thorough: 600}, RunSpec{Scen: "w1", Params: "crash=1,reads=1,voters=1", Quick: 8, Thorough: 200})
-	app("C06", RunSpec{Scen: "w2.takeover", Quick: 24, Thorough: 600})
+	app("C06", RunSpec{Scen: "w2.takeover", Quick: 24, Thorough: 600}, RunSpec{Scen: "w1", Params: "snapshots=1,crash=1,snapthr=5", Quick: 32, Thorough: 800},
+		RunSpec{Scen: "w2.installcrash", Params: "snapshots=1", Quick: 8, Thorough: 200})
 	app("C07", RunSpec{Scen: "w2.staleinstall", Params: "snapshots=1,snapthr=6,pad=100", Quick: 16, Thorough: 400}, RunSpec{Scen: "w2.takeover", Quick: 24, Thorough: 600}, RunSpec{Scen: "w2.figure8", Quick: 24, Thorough: 600}, RunSpec{Scen: "w2.acklose", Quick: 16, Thorough: 400})
 	app("C08", RunSpec{Scen: "w2.votes", Quick: 24, Thorough: 600})
 
@@ -226,6 +227,8 @@ func checks() map[string]*Check {
 			{Scen: "w1", Params: "snapshots=1,crash=1,torn=1", Quick: 64, Thorough: 2400},
 			{Scen: "w1", Params: "snapshots=1,crash=1,torn=1,voters=3,clients=6,pad=40000", Quick: 24, Thorough: 1200},
 			{Scen: "w1", Params: "crash=1,torn=1", Quick: 24, Thorough: 1200},
+			{Scen: "w1", Params: "snapshots=1,crash=1,torn=1,crashbias=1,steps=30", Quick: 32, Thorough: 1600},
+			{Scen: "w1", Params: "crash=1,torn=1,crashbias=1,steps=30,voters=3", Quick: 16, Thorough: 800},
 			{Scen: "w2.acklose", Quick: 8, Thorough: 300},
 			{Scen: "w2.votes", Quick: 8, Thorough: 300},
 			{Scen: "w2.installcrash", Params: "snapshots=1", Quick: 32, Thorough: 800},
@@ -248,6 +251,7 @@ func checks() map[string]*Check {
 			{Scen: "w2.takeover", Quick: 16, Thorough: 400},
 			{Scen: "w2.figure8", Quick: 8, Thorough: 200},
 			{Scen: "w2.installcrash", Params: "snapshots=1", Quick: 16, Thorough: 400},
+			{Scen: "w2.boundarylag", Params: "snapshots=1,pad=100", Quick: 24, Thorough: 600},
 			{Scen: "w2.members", Quick: 16, Thorough: 400},
 			{Scen: "codec.e2e", Params: "size=4718592", Quick: 1, Thorough: 2},
 			{Scen: "puppet.is", Params: "cases=30", Quick: 16, Thorough: 400},
